@@ -15,7 +15,8 @@ EXTENDS Naturals, Sequences, FiniteSets, TLC, Json
 CONSTANT N
 Types == 1..N
 \* shape of a type body
-Shapes == [k : {"leaf"}] \cup [k : {"ref", "prop", "optprop", "arr", "allof"}, a : Types] \cup [k : {"or"}, a : Types, b : Types]
+\* leaf: an object; any / empty / regex: the other notations a TYPE may have; scalar: a JSight scalar
+Shapes == [k : {"leaf", "any", "empty", "regex", "scalar"}] \cup [k : {"ref", "prop", "optprop", "arr", "allof"}, a : Types] \cup [k : {"or"}, a : Types, b : Types]
 Sites == {"none", "path-ref", "path-prop", "headers", "query", "request", "response", "rpc", "typeuse"}
 
 VARIABLES g, site
@@ -24,7 +25,7 @@ Init == g = <<>> /\ site \in Sites
 Next == Len(g) < N /\ \E s \in Shapes : g' = Append(g, s) /\ UNCHANGED site
 Spec == Init /\ [][Next]_vars
 
-Succ(G, t) == LET s == G[t] IN IF s.k = "leaf" THEN {} ELSE IF s.k = "or" THEN {s.a, s.b} ELSE {s.a}
+Succ(G, t) == LET s == G[t] IN IF s.k \in {"leaf", "any", "empty", "regex", "scalar"} THEN {} ELSE IF s.k = "or" THEN {s.a, s.b} ELSE {s.a}
 \* the walk with a visited set: returns the number of unfoldings
 RECURSIVE Walk(_, _, _, _)
 Walk(G, todo, seen, n) ==
